@@ -457,4 +457,16 @@ theorem wvF_congr : ∀ (fs : GFields) (r d : Nat) (es es' : List Val),
     simp only [wvF]
     rw [h name (by simp [namesF]), wvF_congr fs r d es es' (fun x hx => h x (by simp [namesF, hx]))]
 
+/-! ## the map field on an OPTIONAL group node (mirror only, no theorem yet) -/
+
+/-- MIRROR: `writeRowsFuncOfStruct` wraps the writer of a map field whose schema node is an optional
+GROUP with `writeRowsFuncOfOptional` (`column_buffer_write.go:606-627`; bitmap branch, null index of
+map types: the nil map is null) over `writeRowsFuncOfMapToGroup`. Rows: `Val.some map` / `Val.none`.
+One `GenericBuffer[struct{ M map[string]V }].Write(batch)`, any / default branches.
+OPEN: `m2gOptWrite fs batch = joinSegs … (batch.map (shredN (.opt (.group …)) 0 0 0 ∘ resolve))`
+(needs `wrOptional_sound` for writers that resolve their rows first). -/
+def m2gOptWrite (fs : GFields) (batch : List Val) : Cols :=
+  if batch.isEmpty then List.replicate (leavesF (eraseGF fs)) []
+  else wrOptional (leavesF (eraseGF fs)) (wrM2GVal fs) 0 0 0 batch
+
 end PqModel.MapToGroup
